@@ -23,6 +23,7 @@ type c10case struct {
 	Begin  int     `json:"begin"`
 	Length int     `json:"length"`
 	Prev   *string `json:"prev"`  // when set: an ApatSequence is first built on Prev, searched, then recycled for Seq
+	PrevCirc bool  `json:"prevcirc"` // the recycled ApatSequence was a circular one
 	RcSeq  *string `json:"rcseq"` // when set: the complemented pattern is searched on this text (whole text)
 	Apis   bool    `json:"apis"`  // also run FilterBestMatch / AllMatches / BestMatch
 }
@@ -32,6 +33,7 @@ type c10obs struct {
 	Err      string   `json:"err,omitempty"`
 	PatLen   int      `json:"patlen"`
 	SeqLen   int      `json:"seqlen"`
+	Stored   string   `json:"stored"` // the bytes the BioSequence holds (what LocatePattern reads; EncodeSequence reads the same)
 	Find     [][3]int `json:"find"`
 	Matching bool     `json:"matching"`
 	Filter   [][3]int `json:"filter"`
@@ -44,6 +46,7 @@ type c10obs struct {
 	CFind    [][3]int `json:"cfind"`
 	Loc      []int    `json:"loc"`
 	LocPanic string   `json:"loc_panic,omitempty"`
+	Tables   *c10tabs `json:"tables,omitempty"`
 }
 
 func nz(l [][3]int) [][3]int {
@@ -72,6 +75,9 @@ func c10run(c c10case) (o c10obs) {
 	if c.Kind == "locate" {
 		return c10locate(c.Pat, c.Seq)
 	}
+	if c.Kind == "tables" {
+		return c10obs{Kind: "tables", Tables: c10tables()}
+	}
 	defer func() {
 		if r := recover(); r != nil {
 			o.Kind = "panic"
@@ -88,7 +94,7 @@ func c10run(c c10case) (o c10obs) {
 	var aseq obiapat.ApatSequence
 	if c.Prev != nil {
 		pbs := obiseq.NewBioSequence("p", []byte(*c.Prev), "")
-		old, err := obiapat.MakeApatSequence(pbs, false)
+		old, err := obiapat.MakeApatSequence(pbs, c.PrevCirc)
 		if err != nil {
 			panic(err)
 		}
@@ -104,6 +110,7 @@ func c10run(c c10case) (o c10obs) {
 		}
 	}
 	o.SeqLen = aseq.Len()
+	o.Stored = string(bs.Sequence())
 	o.Find = nz(pat.FindAllIndex(aseq, c.Begin, c.Length))
 	o.Matching = pat.IsMatching(aseq, c.Begin, c.Length)
 	if c.Apis {
